@@ -34,9 +34,10 @@ fn main() -> anyhow::Result<()> {
     let root_path = repository_root_path(fs::canonicalize(env::current_dir()?)?)?;
     let file_system = blocks::FileSystemImpl::new(root_path);
     let modified_lines_by_file = if !is_terminal {
-        let mut diff = String::new();
-        std::io::stdin().read_to_string(&mut diff)?;
-        diff_parser::line_changes_from_diff(diff.as_str())?
+        // The diff may quote lines of files that are not UTF-8 encoded.
+        let mut diff = Vec::new();
+        std::io::stdin().read_to_end(&mut diff)?;
+        diff_parser::line_changes_from_diff(&String::from_utf8_lossy(&diff))?
     } else {
         HashMap::new()
     };
